@@ -263,6 +263,43 @@ func (e *Engine) algBuiltin(env *Env, name string, ex *SExpr) (Val, bool) {
 		return mk(res, fmt.Sprintf("(%s %s)", fn, arg(0).S))
 	}
 	switch name {
+	case "vals":
+		// vals(s): the sequence of values of a slice: field/group values of []*Zr / []*G1 / []*G2, the integers of an integer
+		// slice. A total function from int (outside 0..len-1 it is whatever the heaps hold there: never constrained by a
+		// contract that guards its indices). Defined by a fresh array constant and a pointwise definitional axiom.
+		declareAlgebra()
+		if env.st == nil {
+			return Val{}, false
+		}
+		sv := arg(0)
+		if strings.Contains(sv.S, "q!") {
+			env.errf("vals(): the slice may not depend on a quantified variable")
+			return Val{}, false
+		}
+		slt, ok := sv.T.Underlying().(*types.Slice)
+		if !ok {
+			env.errf("vals() needs a slice: %s", ex)
+			return Val{}, false
+		}
+		hn, hs := elemHeapName(slt.Elem())
+		row := sel(env.heap(hn, hs), slRef(sv.S))
+		off := slOff(sv.S)
+		var et types.Type
+		var es, at string
+		if k := algKind(slt.Elem()); k != "" {
+			an, as := algHeap(k)
+			et, es = algType(k), k
+			at = sel(env.heap(an, as), sel(row, ix(off, "i!v")))
+		} else if sortOf(slt.Elem()) == "Int" {
+			et, es = types.Typ[types.Int], "Int"
+			at = sel(row, ix(off, "i!v"))
+		} else {
+			env.errf("vals() needs a slice of field/group elements or of integers: %s", ex)
+			return Val{}, false
+		}
+		w := env.st.freshConst("vals", fmt.Sprintf("(Array Int %s)", es))
+		env.st.assume(fmt.Sprintf("(forall ((i!v Int)) (! (= (select %s i!v) %s) :pattern ((select %s i!v))))", w, at, w))
+		return Val{S: w, T: &ghostMapType{key: types.Typ[types.Int], elem: et}}, true
 	case "val":
 		declareAlgebra()
 		x := arg(0)
@@ -356,6 +393,17 @@ func init() {
 		heapSortOf["L!big!val"] = "(Array Int Int)"
 		st.setHeap("L!big!val", "(Array Int Int)", store(st.heap("L!big!val", "(Array Int Int)"), r, args[0].S))
 		return Val{S: r, T: resT}
+	}
+	libModels["(*math/big.Int).SetBytes"] = func(e *Engine, st *State, fr *Frame, args []Val, resT types.Type, pos token.Pos, ins ssa.Instruction) Val {
+		used(e, "math/big.Int.SetBytes(b): the receiver becomes the non-negative integer with big-endian representation b (a function of the bytes: leading zero bytes do not change it) and is returned")
+		reg.declareFun("lib!beint", []string{"Str"}, "Int")
+		name := e.siteName(st, fr, "nil-deref", pos, ins)
+		st.check("nil-deref", name, not(eq(args[0].S, "0")), pos)
+		v := "(lib!beint " + e.contentOf(st, args[1]) + ")"
+		st.assume("(>= " + v + " 0)")
+		heapSortOf["L!big!val"] = "(Array Int Int)"
+		st.setHeap("L!big!val", "(Array Int Int)", store(st.heap("L!big!val", "(Array Int Int)"), args[0].S, v))
+		return Val{S: args[0].S, T: resT}
 	}
 	libModels["(*math/big.Int).Cmp"] = func(e *Engine, st *State, fr *Frame, args []Val, resT types.Type, pos token.Pos, ins ssa.Instruction) Val {
 		used(e, "math/big.Int.Cmp: -1, 0, +1 according to the order of the two values; panics on a nil receiver or argument")
